@@ -1,6 +1,6 @@
 //# unit fix_length kind=kani_in crate=rusty_basic inject=rusty_basic/src/interpreter/string_utils.rs
-//# assume "strings of at most 3 characters (one harness per length, symbolic characters), target width n in 0..=4"
-//# assume "fix_length main harnesses: ASCII characters 1..=127 (NUL handled in fix_len3_with_nul; CHR$(128..255) is finding F30); to_ascii_*: all byte values"
+//# assume "strings of at most 3 characters, target width n in 0..=4; quick tier: concrete strings (\"\", \"abc\", CHR$(200)+\"x\"+CHR$(201), CHR$(200)) with symbolic width; thorough tier: symbolic ASCII characters per length (about 10 minutes each)"
+//# assume "symbolic-character harnesses: ASCII characters 1..=127 (NUL handled in fix_len3_with_nul, CHR$(128..255) in the two concrete Latin-1 harnesses); to_ascii_*: all byte values"
 // C04 / C17 -- the pad/truncate kernel behind every STRING * n store (handlers/cast.rs fix_length_in_a) and behind
 // PRINT USING "\ \".  Contract (property statement C04: "a STRING * n variable, field or element always holds exactly
 // n characters (padded with spaces or truncated) however it was assigned"):
@@ -50,6 +50,14 @@ fn check_result(s: &String, old: &[u8], n: usize) {
     }
 }
 
+/// the same for one concrete width n (cost only: the loops of fix_length unroll to a known length)
+fn check_fix_n(cs: &[u8], n: usize) {
+    let mut s = string_of(cs);
+    fix_length(&mut s, n);
+    check_result(&s, cs, n);
+    std::mem::forget(s);
+}
+
 fn check_fix(cs: &[u8]) -> usize {
     let n = vs::choice(5) as usize;
     let mut s = string_of(cs);
@@ -67,7 +75,7 @@ harness!(fix_len0, 6, {
     reach!(n == 4);
 });
 
-//# harness fix_len1 tier=quick label=bounded(|s|=1,n<=4) props=C04,C17 fn=rusty_basic/src/interpreter/string_utils.rs::fix_length
+//# harness fix_len1 tier=thorough label=bounded(|s|=1,n<=4) props=C04,C17 fn=rusty_basic/src/interpreter/string_utils.rs::fix_length timeout=1800
 harness!(fix_len1, 6, {
     let cs = [any_char()];
     let n = check_fix(&cs);
@@ -76,7 +84,7 @@ harness!(fix_len1, 6, {
     reach!(n == 4 && cs[0] == b'x');
 });
 
-//# harness fix_len2 tier=thorough label=bounded(|s|=2,n<=4) props=C04,C17 fn=rusty_basic/src/interpreter/string_utils.rs::fix_length timeout=900
+//# harness fix_len2 tier=thorough label=bounded(|s|=2,n<=4) props=C04,C17 fn=rusty_basic/src/interpreter/string_utils.rs::fix_length timeout=1800
 harness!(fix_len2, 6, {
     let cs = [any_char(), any_char()];
     let n = check_fix(&cs);
@@ -85,7 +93,7 @@ harness!(fix_len2, 6, {
     reach!(n == 3 && cs[1] == b'y');
 });
 
-//# harness fix_len3 tier=quick label=bounded(|s|=3,n<=4) props=C04,C17 fn=rusty_basic/src/interpreter/string_utils.rs::fix_length
+//# harness fix_len3 tier=thorough label=bounded(|s|=3,n<=4) props=C04,C17 fn=rusty_basic/src/interpreter/string_utils.rs::fix_length timeout=1800
 harness!(fix_len3, 6, {
     let cs = [any_char(), any_char(), any_char()];
     let n = check_fix(&cs);
@@ -95,7 +103,87 @@ harness!(fix_len3, 6, {
     reach!(n == 4 && cs[2] == b'z');
 });
 
-//# harness fix_len3_with_nul tier=thorough label=bounded(|s|=3,n<=4,first_NUL_at_0..2) props=C04,C17 fn=rusty_basic/src/interpreter/string_utils.rs::fix_length timeout=900
+//# harness fix_len1_n0 tier=thorough label=bounded(|s|=1,n=0) props=C04,C17 fn=rusty_basic/src/interpreter/string_utils.rs::fix_length timeout=1800
+harness!(fix_len1_n0, 6, {
+    let cs = [any_char()];
+    check_fix_n(&cs, 0);
+    reach!(cs[0] == b'x');
+});
+
+//# harness fix_len1_n1 tier=thorough label=bounded(|s|=1,n=1) props=C04,C17 fn=rusty_basic/src/interpreter/string_utils.rs::fix_length timeout=1800
+harness!(fix_len1_n1, 6, {
+    let cs = [any_char()];
+    check_fix_n(&cs, 1);
+    reach!(cs[0] == b'x');
+});
+
+//# harness fix_len1_n4 tier=thorough label=bounded(|s|=1,n=4) props=C04,C17 fn=rusty_basic/src/interpreter/string_utils.rs::fix_length timeout=1800
+harness!(fix_len1_n4, 6, {
+    let cs = [any_char()];
+    check_fix_n(&cs, 4);
+    reach!(cs[0] == b'x');
+});
+
+//# harness fix_len3_n2 tier=thorough label=bounded(|s|=3,n=2) props=C04,C17 fn=rusty_basic/src/interpreter/string_utils.rs::fix_length timeout=1800
+harness!(fix_len3_n2, 6, {
+    let cs = [any_char(), any_char(), any_char()];
+    check_fix_n(&cs, 2);
+    reach!(cs[0] == b'x');
+});
+
+//# harness fix_len3_n3 tier=thorough label=bounded(|s|=3,n=3) props=C04,C17 fn=rusty_basic/src/interpreter/string_utils.rs::fix_length timeout=1800
+harness!(fix_len3_n3, 6, {
+    let cs = [any_char(), any_char(), any_char()];
+    check_fix_n(&cs, 3);
+    reach!(cs[0] == b'x');
+});
+
+//# harness fix_len3_n4 tier=thorough label=bounded(|s|=3,n=4) props=C04,C17 fn=rusty_basic/src/interpreter/string_utils.rs::fix_length timeout=1800
+harness!(fix_len3_n4, 6, {
+    let cs = [any_char(), any_char(), any_char()];
+    check_fix_n(&cs, 4);
+    reach!(cs[0] == b'x');
+});
+
+//# harness fix_concrete_abc tier=quick label=bounded(s="abc",n<=4) props=C04,C17 fn=rusty_basic/src/interpreter/string_utils.rs::fix_length
+harness!(fix_concrete_abc, 6, {
+    // concrete characters, symbolic width (the symbolic-character harnesses above take about 10 minutes each since
+    // fix_length counts characters: thorough tier)
+    let cs = [b'a', b'b', b'c'];
+    let n = check_fix(&cs);
+    reach!(n == 0);
+    reach!(n == 3);
+    reach!(n == 4);
+});
+
+//# harness fix_concrete_latin1 tier=quick label=bounded(s=CHR$(200)+"x"+CHR$(201),n<=4) props=C04,C17 fn=rusty_basic/src/interpreter/string_utils.rs::fix_length
+harness!(fix_concrete_latin1, 6, {
+    // characters beyond 127 take two bytes in a Rust String: the result has n CHARACTERS, the first ones unchanged
+    let want = [200u8 as char, 'x', 201u8 as char];
+    let mut s = String::new();
+    s.push(want[0]);
+    s.push(want[1]);
+    s.push(want[2]);
+    let n = vs::choice(5) as usize;
+    fix_length(&mut s, n);
+    let mut it = s.chars();
+    let mut i = 0;
+    while i < 5 {
+        let c = it.next();
+        if i < n {
+            let w = if i < 3 { want[i] } else { ' ' };
+            assert!(c == Some(w), "character i is the old character i, or a space beyond the old content");
+        } else {
+            assert!(c.is_none(), "a STRING * n value has exactly n characters");
+        }
+        i += 1;
+    }
+    std::mem::forget(s);
+    reach!(n == 1);
+    reach!(n == 4);
+});
+
+//# harness fix_len3_with_nul tier=thorough label=bounded(|s|=3,n<=4,first_NUL_at_0..2) props=C04,C17 fn=rusty_basic/src/interpreter/string_utils.rs::fix_length timeout=1800
 harness!(fix_len3_with_nul, 6, {
     // a NUL at position k, NUL-free before it, anything after it: the old content is the part before the NUL
     let k = vs::choice(3) as usize;
@@ -115,7 +203,7 @@ harness!(fix_len3_with_nul, 6, {
     reach!(k == 2 && n == 3);
 });
 
-//# harness finding_F30_non_ascii_counts_twice tier=quick label=bounded(s=CHR$(200),n=1..4) props=C04,C17 fn=rusty_basic/src/interpreter/string_utils.rs::fix_length expect=finding:F30
+//# harness finding_F30_non_ascii_counts_twice tier=quick label=bounded(s=CHR$(200),n=1..4) props=C04,C17 fn=rusty_basic/src/interpreter/string_utils.rs::fix_length expect=finding:F30 standalone=1
 harness!(finding_F30_non_ascii_counts_twice, 6, {
     // the string CHR$(200) exactly as built_ins/chr.rs builds it; every width n >= 1 goes wrong
     let mut s = String::new();
@@ -175,7 +263,7 @@ harness!(ascii_bytes_roundtrip_len1, 6, {
 });
 
 // attempt: CBMC does not finish on three symbolic bytes (the collected String has a symbolic byte length 3..=6); > 500 s, out of memory
-//# harness ascii_bytes_roundtrip_len3 tier=thorough label=bounded(len=3,all_bytes) props=C18,C19 fn=rusty_basic/src/interpreter/string_utils.rs::to_ascii_string timeout=900 attempt=1
+//# harness ascii_bytes_roundtrip_len3 tier=thorough label=bounded(len=3,all_bytes) props=C18,C19 fn=rusty_basic/src/interpreter/string_utils.rs::to_ascii_string timeout=1800 attempt=1
 harness!(ascii_bytes_roundtrip_len3, 6, {
     let b = [vs::u8(), vs::u8(), vs::u8()];
     check_roundtrip(&b);
